@@ -115,6 +115,8 @@ struct Ctx {
     problems: Mutex<Vec<(String, String)>>,
     /// worker-thread panics made by bomb wakers: (worker, payload)
     died: Mutex<Vec<(usize, usize)>>,
+    /// kernel thread ids that appeared while the dispatcher was built (a superset of its workers)
+    worker_tids: Mutex<Vec<u64>>,
 }
 
 impl Ctx {
@@ -129,6 +131,7 @@ impl Ctx {
             gauge: (0..MAX_WORKERS).map(|_| AtomicUsize::new(0)).collect(),
             problems: Mutex::new(vec![]),
             died: Mutex::new(vec![]),
+            worker_tids: Mutex::new(vec![]),
         })
     }
 
@@ -339,7 +342,27 @@ fn parse_cfg(ws: &[&str]) -> Option<Cfg> {
     Some(cfg)
 }
 
+fn task_ids() -> Vec<u64> {
+    let mut v = vec![];
+    if let Ok(rd) = std::fs::read_dir("/proc/self/task") {
+        for e in rd.flatten() {
+            if let Some(t) = e.file_name().to_str().and_then(|s| s.parse().ok()) {
+                v.push(t);
+            }
+        }
+    }
+    v
+}
+
 fn build(cfg: &Cfg, ctx: &Arc<Ctx>) -> std::io::Result<Dispatcher> {
+    let before = task_ids();
+    let d = build_inner(cfg, ctx);
+    let new: Vec<u64> = task_ids().into_iter().filter(|t| !before.contains(t)).collect();
+    *ctx.worker_tids.lock().unwrap() = new;
+    d
+}
+
+fn build_inner(cfg: &Cfg, ctx: &Arc<Ctx>) -> std::io::Result<Dispatcher> {
     let prefix = ctx.prefix();
     let mut b = Dispatcher::builder()
         .worker_threads(NonZeroUsize::new(cfg.w).unwrap())
@@ -366,30 +389,31 @@ fn build(cfg: &Cfg, ctx: &Arc<Ctx>) -> std::io::Result<Dispatcher> {
     b.build()
 }
 
-/// worker threads of this dispatcher that are still running user code (`/proc/self/task/*/{comm,stat}`).
+/// worker threads of this dispatcher that are still running user code.
 ///
-/// `pthread_join` returns as soon as the kernel has cleared the thread's tid futex, a moment before the
-/// task disappears from /proc. A thread that has entered `do_exit` carries `PF_EXITING` (0x4) in the flags
-/// field of its stat line from the very beginning of its exit path (before the futex is cleared), so a joined
-/// thread is never counted, and a worker that has not finished always is.
+/// Candidates are the kernel threads that appeared while the dispatcher was built and carry its thread-name
+/// prefix (threads of the blocking pool spawned later by a worker inherit the worker's `comm`, so the name
+/// alone is not enough). `pthread_join` returns as soon as the kernel has cleared the thread's tid futex, a
+/// moment before the task disappears from /proc: a thread that has entered `do_exit` carries `PF_EXITING`
+/// (0x4) in the flags field of its stat line from the very beginning of its exit path (before the futex is
+/// cleared), so a joined thread is never counted, and a worker that has not finished always is.
 fn alive_workers(ctx: &Ctx) -> usize {
     const PF_EXITING: u64 = 0x4;
     let prefix = ctx.prefix();
     let mut n = 0;
-    if let Ok(rd) = std::fs::read_dir("/proc/self/task") {
-        for e in rd.flatten() {
-            let Ok(comm) = std::fs::read_to_string(e.path().join("comm")) else { continue };
-            if !comm.trim_end().starts_with(&prefix) {
-                continue;
-            }
-            let Ok(stat) = std::fs::read_to_string(e.path().join("stat")) else { continue };
-            let Some((_, rest)) = stat.rsplit_once(") ") else { continue };
-            let f: Vec<&str> = rest.split(' ').collect();
-            let state = f.first().and_then(|s| s.chars().next()).unwrap_or('?');
-            let flags: u64 = f.get(6).and_then(|x| x.parse().ok()).unwrap_or(0);
-            if state != 'Z' && state != 'X' && flags & PF_EXITING == 0 {
-                n += 1;
-            }
+    for tid in ctx.worker_tids.lock().unwrap().iter() {
+        let dir = format!("/proc/self/task/{tid}");
+        let Ok(comm) = std::fs::read_to_string(format!("{dir}/comm")) else { continue };
+        if !comm.trim_end().starts_with(&prefix) {
+            continue;
+        }
+        let Ok(stat) = std::fs::read_to_string(format!("{dir}/stat")) else { continue };
+        let Some((_, rest)) = stat.rsplit_once(") ") else { continue };
+        let f: Vec<&str> = rest.split(' ').collect();
+        let state = f.first().and_then(|s| s.chars().next()).unwrap_or('?');
+        let flags: u64 = f.get(6).and_then(|x| x.parse().ok()).unwrap_or(0);
+        if state != 'Z' && state != 'X' && flags & PF_EXITING == 0 {
+            n += 1;
         }
     }
     n
@@ -1124,6 +1148,8 @@ struct GTask {
     det_stat: bool,
     rx_dropped: bool,
     stranded: bool,
+    /// concurrent mode: may share the executor of a worker thread that is about to panic
+    racy: bool,
 }
 
 fn gen_det(rng: &mut Rng) -> Vec<String> {
@@ -1161,6 +1187,7 @@ fn gen_det(rng: &mut Rng) -> Vec<String> {
                     det_stat: true,
                     rx_dropped: false,
                     stranded: false,
+                    racy: false,
                 };
                 if conc {
                     match end {
@@ -1181,6 +1208,7 @@ fn gen_det(rng: &mut Rng) -> Vec<String> {
                             if matches!(o.end, End::Val(_) | End::Panic) && !(o.det_rx && o.det_stat) {
                                 o.det_rx = false;
                                 o.det_stat = false;
+                                o.racy = true;
                             }
                         }
                     }
@@ -1202,6 +1230,7 @@ fn gen_det(rng: &mut Rng) -> Vec<String> {
                                 det_stat: true,
                                 rx_dropped: false,
                                 stranded: true,
+                                racy: false,
                             });
                         }
                     }
@@ -1229,6 +1258,7 @@ fn gen_det(rng: &mut Rng) -> Vec<String> {
                     det_stat: true,
                     rx_dropped: false,
                     stranded: false,
+                    racy: false,
                 });
             }
             6..=8 => {
@@ -1237,7 +1267,12 @@ fn gen_det(rng: &mut Rng) -> Vec<String> {
                     .iter()
                     .enumerate()
                     .filter(|(_, g)| {
-                        g.accepted && !g.settled && !g.rx_dropped && !g.stranded && matches!(g.end, End::Val(_) | End::Panic)
+                        g.accepted
+                            && !g.settled
+                            && !g.rx_dropped
+                            && !g.stranded
+                            && !g.racy
+                            && matches!(g.end, End::Val(_) | End::Panic)
                     })
                     .map(|(i, _)| i)
                     .collect();
@@ -1260,6 +1295,10 @@ fn gen_det(rng: &mut Rng) -> Vec<String> {
                     let i = *rng.pick(&cands);
                     l.push(format!("drop {}", tasks[i].t));
                     tasks[i].rx_dropped = true;
+                    if tasks[i].blocking {
+                        // nobody waits for it any more: it may run on the pool after the case has ended
+                        tasks[i].det_stat = false;
+                    }
                 }
             }
         }
@@ -1401,7 +1440,7 @@ fn main() {
     let rt = Runtime::new().expect("harness runtime");
     run_harness(
         |tier, rng| {
-            let (n_det, n_conc, n_big) = if tier == "thorough" { (5000, 3000, 150) } else { (400, 240, 10) };
+            let (n_det, n_conc, n_big) = if tier == "thorough" { (4000, 2400, 120) } else { (320, 200, 8) };
             let mut cases = vec![];
             for i in 0..n_det {
                 cases.push(Case { name: format!("det/{i}"), lines: gen_det(rng) });
